@@ -536,7 +536,9 @@ func runC18(c *mc.Ctx) {
 	// is invisible to alphabets whose elements differ in several positions at once.
 	{
 		var xs []c18Case
-		pairs := [][2]byte{{0x00, 0x01}, {0x01, 0x02}, {0x7f, 0x80}, {0xfe, 0xff}}
+		// neighbouring values and values FAR apart (a comparison by subtraction in a signed type is right
+		// for small differences and wraps for 0x01 against 0x90)
+		pairs := [][2]byte{{0x00, 0x01}, {0x01, 0x02}, {0x7f, 0x80}, {0xfe, 0xff}, {0x00, 0xff}, {0x01, 0x90}, {0x10, 0xf0}, {0x00, 0x80}, {0x7f, 0xff}}
 		for pos := 0; pos < 32; pos++ {
 			for _, pr := range pairs {
 				a, b := bytes.Repeat([]byte{0x55}, 32), bytes.Repeat([]byte{0x55}, 32)
@@ -549,6 +551,10 @@ func runC18(c *mc.Ctx) {
 			}
 		}
 		h := mc.Hex(bytes.Repeat([]byte{0x33}, 32))
+		for _, pr := range [][2]uint32{{0, 0xffffffff}, {1, 0x90000000}, {0x7fffffff, 0x80000000}, {0x10, 0xf0000000}, {0x00000001, 0x80000001}} { // indexes far apart
+			hh := mc.Hex(bytes.Repeat([]byte{0x33}, 32))
+			xs = append(xs, c18Case{XIns: []c18XIn{{hh, pr[0]}, {hh, pr[1]}}}, c18Case{XIns: []c18XIn{{hh, pr[1]}, {hh, pr[0]}}})
+		}
 		for bit := 0; bit < 32; bit++ { // equal txids, indexes differing in one bit
 			lo, hi := uint32(0), uint32(1)<<uint(bit)
 			xs = append(xs, c18Case{XIns: []c18XIn{{h, hi}, {h, lo}}}, c18Case{XIns: []c18XIn{{h, lo}, {h, hi}}},
